@@ -326,6 +326,7 @@ RunOutput run_hist(const Plan& plan, const RunOpts& o)
     }
     gamma.reset();
     // ---- stats ----
+    out.stats.add("operator.set_shift_calls", alpha->world->ctlA.setshift_total);
     out.stats.add("events", alpha->ctx.nevents);
     out.stats.add("applications.A", alpha->ctx.n_apply[0]);
     out.stats.add("applications.B", alpha->ctx.n_apply[1]);
